@@ -1,7 +1,10 @@
 (* C02 — Each editing call has exactly its documented effect on tree shape.
-   Property theorems only. *)
+   Property theorems only.  Spec/ListEdit.v holds list-level models of what insert / insert_before /
+   insert_after / replace_with do to the child list of the receiving tag (tied to the code by the
+   correspondence run) and the documented effects; the theorems say they coincide for ALL lists. *)
 From Coq Require Import List Arith Bool.
-From BS Require Import Base.Sexp Model.Heap Model.Edit Proofs.HeapBasics.
+From BS Require Import Base.Sexp Model.Heap Model.Edit Spec.Tree Spec.ListEdit
+  Proofs.HeapBasics Proofs.ExtractRep Proofs.InsertRep Proofs.ListEditProofs.
 Import ListNotations.
 
 (* a successful _insert of a parentless child puts it at the requested (clipped) index *)
@@ -12,3 +15,57 @@ Theorem C02_insert1_places_child : forall fuel h self position nc h',
   kids (h' self) = insert_at (Nat.min position (length (kids (h self)))) nc (kids (h self)).
 Proof. exact insert1_places_child. Qed.
 Print Assumptions C02_insert1_places_child.
+
+(* Tag.insert(position, c1, ..., cn): whatever mixture of new elements, earlier siblings and later
+   siblings the arguments are, they end up contiguous, in the given order, immediately before the
+   first old child at or after the requested position that is not itself an argument; every other
+   child keeps its relative order (nothing else moves) *)
+Theorem C02_insert_multi : forall cs pos K, NoDup cs -> NoDup K ->
+  kmove_all pos cs K = splice_spec pos cs K.
+Proof. exact kmove_all_spec. Qed.
+Print Assumptions C02_insert_multi.
+
+Theorem C02_insert_before : forall cs self K, NoDup cs -> NoDup K -> In self K -> ~ In self cs ->
+  kbefore self cs K = before_spec self cs K.
+Proof. exact kbefore_spec. Qed.
+Print Assumptions C02_insert_before.
+
+Theorem C02_insert_after : forall cs self K, NoDup cs -> NoDup K -> In self K -> ~ In self cs ->
+  kafter self cs K = after_spec self cs K.
+Proof. exact kafter_spec. Qed.
+Print Assumptions C02_insert_after.
+
+Theorem C02_replace_with : forall cs self K, NoDup cs -> NoDup K -> In self K -> ~ In self cs ->
+  kreplace self cs K = replace_spec self cs K.
+Proof. exact kreplace_spec. Qed.
+Print Assumptions C02_replace_with.
+
+(* no element is duplicated or lost, none occupies two places *)
+Theorem C02_insert_conserves : forall cs pos K, NoDup cs -> NoDup K ->
+  NoDup (kmove_all pos cs K) /\ (forall x, In x (kmove_all pos cs K) <-> In x K \/ In x cs).
+Proof. exact splice_conserves. Qed.
+Print Assumptions C02_insert_conserves.
+
+Theorem C02_insert_contiguous : forall cs pos K, NoDup cs -> NoDup K ->
+  exists A B, kmove_all pos cs K = A ++ cs ++ B /\ A ++ B = others cs K.
+Proof. exact splice_contiguous. Qed.
+Print Assumptions C02_insert_contiguous.
+
+(* at tree level: extract takes exactly the subtree out (it comes back intact: s is the subtree as it
+   was), _insert puts exactly the tree in as child number pos — both as effects on the forest the
+   heap represents (shared with C01) *)
+Theorem C02_extract_effect : forall F T b h x T' s fuel,
+  rep ((T, b) :: F) h -> rid T <> x -> remove x T = (T', Some s) -> length (pre T) <= fuel ->
+  rep ((T', b) :: (s, true) :: F) (extract fuel h x).
+Proof. exact extract_rep. Qed.
+Print Assumptions C02_extract_effect.
+
+Theorem C02_insert_effect : forall F Tp bp Tc h self position fuel h',
+  rep ((Tp, bp) :: (Tc, true) :: F) h ->
+  In self (pre Tp) -> is_tag h self = true ->
+  length (pre Tp) + length (pre Tc) <= fuel ->
+  insert1 fuel h self position (rid Tc) = Some h' ->
+  let pos := Nat.min position (length (kids (h self))) in
+  rep ((insert_sub self pos Tc Tp, bp || (Nat.eqb self (rid Tp) && Nat.eqb pos 0)) :: F) h'.
+Proof. exact insert1_rep. Qed.
+Print Assumptions C02_insert_effect.
